@@ -477,6 +477,71 @@ func checkPushesNonNil(p *core.Prog, r *core.Result, decode *ssa.Function, unpic
 		}
 	}
 	r.Floor("R15.5", n, 10, "push sites in decode")
+	// the memo only ever holds non-nil values too (get() hands its entries out as "previously pushed values")
+	nMemo := 0
+	var okMemoVal func(v ssa.Value, at ssa.Instruction, depth int) bool
+	okMemoVal = func(v ssa.Value, at ssa.Instruction, depth int) bool {
+		if ok, _ := nonNilSource(p, v, at, 0); ok {
+			return true
+		}
+		prm, isPrm := v.(*ssa.Parameter)
+		if !isPrm || depth > 2 {
+			return false
+		}
+		fn := prm.Parent()
+		idx := paramIndex(fn, prm)
+		callers := p.StaticCallers(fn)
+		if len(callers) == 0 || idx < 0 {
+			return false
+		}
+		for _, c := range callers {
+			if idx >= len(c.Common().Args) || !okMemoVal(c.Common().Args[idx], c.(ssa.Instruction), depth+1) {
+				return false
+			}
+		}
+		return true
+	}
+	for _, fn := range p.ModuleFuncs() {
+		if fn.Pkg == nil || fn.Pkg.Pkg.Path() != pkgPickle {
+			continue
+		}
+		k := 0
+		core.Instrs(fn, func(in ssa.Instruction) {
+			st, ok := in.(*ssa.Store)
+			if !ok {
+				return
+			}
+			var vals []ssa.Value
+			switch {
+			case core.IsField(st.Addr, pkgPickle, "Decoder", "memo"):
+				// d.memo = append(d.memo, xs...) / a truncation
+				if c, isCall := st.Val.(*ssa.Call); isCall {
+					if b, isB := c.Call.Value.(*ssa.Builtin); isB && b.Name() == "append" && len(c.Call.Args) == 2 {
+						if sl, isSl := c.Call.Args[1].(*ssa.Slice); isSl {
+							if elems, ok := tupleElems(sl); ok {
+								vals = elems
+							} else {
+								vals = []ssa.Value{nil}
+							}
+						}
+					}
+				}
+			default:
+				ia, isIA := st.Addr.(*ssa.IndexAddr)
+				if !isIA || !core.LoadOfField(ia.X, pkgPickle, "Decoder", "memo") {
+					return
+				}
+				vals = []ssa.Value{st.Val}
+			}
+			for _, v := range vals {
+				nMemo++
+				k++
+				construct := fmt.Sprintf("%s#memo-entry-%d", fname(fn), k)
+				r.Check(v != nil && okMemoVal(v, st, 0), "R15.5", construct, p.InstrPos(st), "the memo receives a previously pushed (non-nil) value", "a memo entry can be nil (e.g. a gap filled below an explicit id): a later BINGET pushes nil without any panic, Decode returns a value containing nil (or (nil, nil)) and the nil is dereferenced later, outside every recover scope")
+			}
+		})
+	}
+	r.Floor("R15.5", nMemo, 1, "writes of memo entries")
 	for _, u := range unpicklers {
 		i := 0
 		for _, ret := range core.ReturnsOf(u) {
